@@ -1000,7 +1000,10 @@ pub fn compare(a: &RunOutput, b: &RunOutput, mode: Mode, sa: u64, sb: u64) -> Op
             }
         }
     }
-    if a.ok != b.ok || a.panic.is_some() != b.panic.is_some() {
+    // Success versus failure only. HOW a failing run fails (an error return, or a panic in one of
+    // two failing securities, whichever the process reaches first) shows on stderr and in the exit
+    // code, not on standard output or in the output files: C09 does not cover it (DESIGN 4.1).
+    if (a.ok == Some(true)) != (b.ok == Some(true)) {
         return Some(Violation {
             kind: "outcome_differs".to_string(),
             signature: "exit status".to_string(),
